@@ -329,6 +329,13 @@ func (ps *PipeSim) crash(c *simrt.Chooser, label string) {
 // same RedisOutput object (the restart RedisInput.Run performs inside one process).
 var crashSoftRestarts = os.Getenv("SIM_CRASH_SOFT") != "0"
 
+// crashTargetBusy (SIM_CRASH_BUSY=1, exploration only, not part of the registered checks): the target refuses ONE replayed
+// command with an error reply and serves what is pipelined behind it. C02 quantifies over crash points, not over error
+// replies of a target that stays up; on the unchanged tree the fault shows a loss in transactional pipelined mode (the
+// refused command's transaction is discarded, the next, already dispatched transaction commits with its checkpoint;
+// DESIGN.md 7.4 by-products).
+var crashTargetBusy = os.Getenv("SIM_CRASH_BUSY") == "1"
+
 func runCrashSim(r *Run, prop string, cfg PipeCfg, st *Stream, maxCrashes int, crashAt int) (*PipeSim, *crashOracle) {
 	ps := NewPipeSim(r, prop, cfg, st)
 	o := newCrashOracle(ps)
@@ -406,6 +413,18 @@ func runCrashSim(r *Run, prop string, cfg PipeCfg, st *Stream, maxCrashes int, c
 					ps.targetReset(r.Sched())
 					o.observe()
 				}})
+				if crashTargetBusy && ph == 1 && len(ready) > 0 && ps.busyLeft == 0 {
+					acts = append(acts, pipeAction{"target-busy", w, func() {
+						// the target stays up and keeps its connections but refuses the next replayed command with an error
+						// ("try again later"); the commands pipelined behind it are served. The tool reports the error and the
+						// replay is started again: the stored position must not cover the refused command
+						crashes++
+						ps.busyLeft = 1
+						r.W.Fault("target_busy")
+						r.Logf("the target is busy: the next replayed command is refused")
+						o.observe()
+					}})
+				}
 				if ph == 1 {
 					acts = append(acts, pipeAction{"target-restart", w, func() {
 						// the target is restarted: it drops the tool's connections, is reachable again at once and, for a while,
